@@ -104,3 +104,24 @@ pub open spec fn split_ok(path: Seq<u8>, dir: Seq<u8>, base: Option<Seq<u8>>) ->
         None => path.len() == 0 || path[path.len() - 1] == 47u8,
     }
 }
+// ---- std::path::Components (only what a fresh iterator's first `next()` yields is specified; A7: std normalises
+// repeated '/' and non-leading "." away, keeps a leading "." as CurDir and every ".." as ParentDir)
+pub enum Component<'a> { RootDir, CurDir, ParentDir, Normal(&'a OsStr) }
+pub struct Components<'a> { pub rest: &'a Path, pub fresh: bool }
+pub open spec fn first_segment(p: Seq<u8>) -> Seq<u8> { p.subrange(0, first_idx(p, 47u8)) }
+impl Path {
+    pub fn components(&self) -> (r: Components<'_>) ensures r.rest@ == self@, r.fresh { Components { rest: self, fresh: true } }
+}
+impl<'a> Components<'a> {
+    #[verifier::external_body]
+    pub fn next(&mut self) -> (r: Option<Component<'a>>)
+        ensures
+            old(self).fresh && old(self).rest@.len() == 0 ==> r is None,
+            old(self).fresh && old(self).rest@.len() > 0 && old(self).rest@[0] == 47u8 ==> r matches Some(Component::RootDir),
+            old(self).fresh && old(self).rest@.len() > 0 && old(self).rest@[0] != 47u8 ==> (
+                (first_segment(old(self).rest@) =~= seq![46u8] ==> r matches Some(Component::CurDir))
+                && (first_segment(old(self).rest@) =~= seq![46u8, 46u8] ==> r matches Some(Component::ParentDir))
+                && (!(first_segment(old(self).rest@) =~= seq![46u8]) && !(first_segment(old(self).rest@) =~= seq![46u8, 46u8]) ==> r matches Some(Component::Normal(_)))),
+            !final(self).fresh,
+    { unimplemented!() }
+}
